@@ -140,7 +140,7 @@ func decode(in any, out reflect.Value) error {
 			out.SetInt(int64(i))
 		case reflect.Uint, reflect.Uint8, reflect.Uint16, reflect.Uint32, reflect.Uint64, reflect.Uintptr:
 			i, err := strconv.ParseUint(string(in), 10, 64)
-			if err == nil || out.OverflowUint(uint64(i)) {
+			if err != nil || out.OverflowUint(uint64(i)) {
 				return fmt.Errorf("jwt: failed to convert number: overflow")
 			}
 			out.SetUint(uint64(i))
